@@ -31,6 +31,15 @@ func main() {
 		for _, id := range core.IDs() {
 			fmt.Println(id)
 		}
+	case "runcase":
+		// debugging: vcheck runcase <ID> <kind> <data.json|->  runs one case in-process
+		p := core.Get(os.Args[2])
+		b, _ := os.ReadFile(os.Args[4])
+		if wi, ok := p.(core.WorkerIniter); ok {
+			wi.InitWorker()
+		}
+		o := p.Run(core.Case{Kind: os.Args[3], Data: b})
+		fmt.Printf("%+v\n", o)
 	case "worker":
 		core.WorkerMain(os.Args[2])
 	case "replay":
@@ -52,6 +61,13 @@ func main() {
 		}
 		p := core.Get(id)
 		if p == nil {
+			// hooked properties are only compiled into the overlay binary
+			want := filepath.Join(filepath.Dir(self), "vcheck-ov")
+			if _, err := os.Stat(want); err == nil && self != want {
+				if err := syscall.Exec(want, append([]string{want}, os.Args[1:]...), os.Environ()); err != nil {
+					fmt.Println("INFRA: cannot exec", want, err)
+				}
+			}
 			fmt.Println("unknown property", id)
 			os.Exit(2)
 		}
